@@ -123,9 +123,11 @@ CHECKS = {
                 "also after backward clock jumps), add a missing file, change option set, change version, restart, clock "
                 "jump, transfer_model; after every transfer the result is compared with a fresh compile of the current "
                 "sources. distinct_nontrivial = distinct (model, option set, pending invalidation causes, same process?, "
-                "cache present?) states at a transfer.",
+                "cache present?) states at a transfer. Config codegen: the same with compiled shared libraries, every "
+                "simulated process a real child interpreter, short histories (a build costs seconds).",
         "assumptions": ["mtime_check=False, changing the set of library folders, edits with preserved/older mtimes and "
-                        "deletions are outside the property's precondition and not generated", "cache mode only"],
+                        "deletions are outside the property's precondition and not generated",
+                        "codegen: the C compiler and linker run for real and are not interleaved with anything"],
         "components": _COMPONENTS_MCACHE,
     },
     "C21": {
@@ -233,8 +235,8 @@ MANIFEST_TEXT = {
                       "option and version changes and restarts; every transfer_model result is compared with a fresh "
                       "compile of the current sources.",
         "design_ref": "DESIGN.md 3.C20",
-        "level_note": "Cache mode only (codegen's dlopen state cannot be restarted inside one OS process); histories are "
-                      "sampled.",
+        "level_note": "Histories are sampled; codegen histories are few (seconds per build) and run each simulated "
+                      "process as a child interpreter; one known finding (stale dlopen) is listed in known_findings.json.",
         "technique": "deterministic simulation: seeded edit/clock/version/restart histories against a fresh-compile "
                      "reference model",
     },
